@@ -33,7 +33,8 @@ def grid_signal(draw, k0, max_samples=8, max_gap=6, var_bound=8.0, min_samples=1
 def ct_cases(draw, profile, tier='quick', shifted=False, max_samples=8, fin=False, min_samples=1):
     f, vs = draw(F.formulas(profile, fin=fin))
     q = draw(st.sampled_from(QUANTA[tier]))
-    k0 = draw(st.sampled_from([1, 2, 4, 7, 12])) if shifted else 0
+    # (also starts of the order of 2e9 time units - seconds since the epoch; k0 * q stays an exact float)
+    k0 = draw(st.sampled_from([1, 2, 4, 7, 12, 2 ** 33, 6800000000])) if shifted else 0
     sig = {}
     for v in vs:
         sig[v] = draw(grid_signal(k0, max_samples=max_samples, var_bound=profile.var_bound, min_samples=min_samples))
